@@ -51,6 +51,7 @@ type peer struct {
 	exts        [][2]string
 	version     uint32
 	readerDone  chan struct{}
+	halfOpen    bool // the client gets a writer whose Close is a no-op
 	closeOnEOF  bool
 	closeStatus uint32 // status code of the replies to CLOSE (0 = SSH_FX_OK): a server may report a failure and release the handle all the same
 }
@@ -368,6 +369,9 @@ func (p *peer) pump(batch int, idle time.Duration, perm func(n int) []int, stop 
 // client builds a real Client talking to this peer.
 func (p *peer) client(opts ...ClientOption) (*Client, error) {
 	go p.run()
+	if p.halfOpen {
+		return NewClientPipe(p.s2c, halfOpenWriter{p: p.c2s}, opts...)
+	}
 	return NewClientPipe(p.s2c, pipeWriteCloser{p: p.c2s}, opts...)
 }
 
